@@ -71,6 +71,17 @@ CLAIMED['C09'] = dict(
     technique='TLA+ key-identity model + TLC; spec->code replay comparing key bits with identities (bijection check)',
     design_ref='3/C09')
 
+CLAIMED['C03'] = dict(
+    text=('NnxGraph.tla: heaps of Modules, list/dict/tuple/namedtuple containers and Variables are built by edit actions (new child, link to an '
+          'existing object = sharing / self reference / cycle, leaves), then a history of nnx.state / split+merge / update (values and '
+          'metadata) / pop / clone calls is applied, each with the result of the reference semantics; TLC checks the implementation-shaped '
+          'walk (sorted keys, index on first visit, containers revisited) against the listing laws exhaustively for N<=3. Exported behaviours '
+          '(exhaustive for N=2, -simulate up to 5 objects / 9 edits / 3 calls) are replayed on real nnx objects and compared through a '
+          'canonical form with identity classes; identity of the caller\'s Variables under update and disjointness under clone/merge are '
+          'checked with id().'),
+    technique='TLA+ heap model + TLC; spec->code replay of generated object graphs and API histories',
+    design_ref='3/C03')
+
 NOT_YET = 'check not built yet in this round (planned, see DESIGN.md section 3); not claimed until its specification is bound to the code'
 ALL = ['C%02d' % i for i in range(1, 21)]
 
